@@ -183,22 +183,31 @@ func HarnessC13Go() {
 		tlsBefore = dtBefore.TLSClientConfig
 	}
 	for call := 0; call < 2; call++ {
-		kind := nondetChoice(3)
+		kind := nondetChoice(5)
 		conf := ConnConfig{C2: c2}
 		switch kind {
 		case 1:
 			conf.Fingerprint = "sha256//" + zeroFP
 		case 2:
 			conf.Fingerprint = "not-base64!"
+		case 3:
+			conf.Fingerprint = "sha256//" // the prefix alone (e.g. "sha256//$UNSET"): malformed, not "no pin"
+			kind = 2
+		case 4:
+			conf.Fingerprint = zeroFP // without the prefix
+			kind = 1
 		}
 		before := postCalls
 		postClient = nil
 		err := Go(context.Background(), conf, nullShell{})
 		if kind == 2 {
 			verifAssert(err != nil, "C13.go.malformed-pin-is-error")
+		}
+		// observations made through the Post stub have no native counterpart: only in stub mode
+		if verifParam("stubobs") == 1 && kind == 2 {
 			verifAssert(postCalls == before, "C13.go.malformed-pin-sends-nothing")
 		}
-		if postClient != nil {
+		if verifParam("stubobs") == 1 && postClient != nil {
 			if kind == 0 {
 				verifAssert(!transportPinned(postClient), "C13.go.unpinned-call-keeps-ordinary-validation")
 			}
